@@ -2,7 +2,7 @@
 cd /verif
 tier=$1; shift; props=$1; shift
 for p in $props; do
-  out=$(timeout 900 bin/symgo -verif /verif -prop $p -tier $tier "$@" 2>&1)
+  out=$(timeout 3000 bin/symgo -verif /verif -prop $p -tier $tier "$@" 2>&1)
   echo "$out" | grep -E "VIOLATION|KNOWN-FINDING|INCONCLUSIVE|COUNTEREXAMPLE" | head -8
   echo "$out" | tail -1
 done
